@@ -678,7 +678,7 @@ def observe(case, tmpdir, want_tokens=True):
                 with warnings.catch_warnings():
                     warnings.simplefilter("ignore")
                     return list(r.trace(s, active=active, verbose=True))
-            tr = with_timeout(5.0, go)
+            tr = with_timeout(2.0 if case["kind"] == "masked" else 5.0, go)
         except Exception as e:      # noqa: BLE001 - mapped to an enum
             obs["runs"].append({"err": err_name(e)})
             continue
@@ -986,7 +986,10 @@ class C13(Check):
             "capture groups incl. optional, nested, empty and named) with templates mixing literals, \\N, \\g<N>, "
             "\\g<name>, \\g<0>, octal and ASCII escapes in any order; rule sequences, nested and repeated iterative "
             "groups, external modules active/inactive (string- and file-loaded), includes, mask-only modules and "
-            "trailing masks; 36 specimen rules on all strings over {a,b,x,' '} up to length 3 (quick) / 5 (thorough) "
+            "trailing masks; programs with masks before and between rules (blocked matches); loader texts: random "
+            "line lists over every declaration kind incl. malformed ones, damaged rendered programs, include and "
+            "module files, preloaded modules; normalised operation trees (well-formed and not) for the renderer "
+            "round trip; 36 specimen rules on all strings over {a,b,x,' '} up to length 3 (quick) / 5 (thorough) "
             "and random strings up to length 10. One case = one program with several inputs; non-trivial if some "
             "rule applied; distinct by JSON text.")
     assumptions = [
@@ -998,10 +1001,18 @@ class C13(Check):
         "only if the reference interpreter reaches the fixpoint within %d rounds (the rest are counted as "
         "'diverging_skipped', together with programs whose intermediate strings grow beyond %d characters); the "
         "implementation runs under a 5 s alarm" % (ROUND_CAP, LEN_CAP),
-        "masks: the model covers the all-zero mask array (mask rules alone or after the last rewrite rule); blocking "
-        "of rewrite rules by earlier masks is outside the property and not generated",
-        "module loading (_parse_repp_module, _handle_group_call) is not modelled: the oracle compares the loaded "
-        "operation tree with the program and with its include-spliced / string-loaded variants",
+        "masks: the property's clauses are about modules without masks (mask rules alone / after the last rewrite "
+        "rule run on the mask-free model); programs with masks before rewrite rules ('masked' stream) run on the "
+        "mask-threading model of Mask.lean (blocking tests, _check_mask, new mask arrays) and are compared step by "
+        "step incl. the mask arrays; an iterative group that never reaches a fixpoint under a mask times out in the "
+        "real code and is not compared",
+        "loader model (Loader.lean): compiling the expressions is a parameter (cases where re rejects a pattern or "
+        "template are not compared), blanks and digits are ASCII, module/include cycles are excluded (the real "
+        "loader does not terminate on them)",
+        "module loading is modelled line by line (Loader.lean) and compared with the real loader on every program's "
+        "rendered text (files, preloaded modules) and on raw / damaged line lists; the link from the loaded module "
+        "to the executable operation tree of the semantics model (template parsing, call expansion) is made by the "
+        "harness and checked by the oracle (loaded tree == program tree)",
         "template validation by re (bad escapes) is not modelled; only 'group reference beyond the pattern's groups' "
         "is (re.error at load)",
     ]
@@ -1264,8 +1275,8 @@ class C13(Check):
             return {"expected_runs": len(expected["runs"]), "model_runs": len(answer["runs"])}
         for i, (e, a) in enumerate(zip(expected["runs"], answer["runs"])):
             if "err" in e:
-                if e["err"] == "timeout" and a.get("err") == "fuel":
-                    continue
+                if e["err"] == "timeout" and a.get("err") in ("fuel", "engine"):
+                    continue        # no fixpoint: the real code does not terminate, the engine table stops there
                 return {"input": i, "expected_from_impl": e, "model": a}
             got = {k: a.get(k) for k in e}
             if got != e:
